@@ -158,10 +158,10 @@ class Programs(object):
         self.ctx.extra['generator_alternatives_driven__set'] = sorted(self.features_seen & all_f)
 
 
-def skip_known(ctx, text, res):
+def skip_known(ctx, text, res, names=None):
     """True when the text contains the trigger of an *open* known finding of
     this property (the case is counted and left to that finding's canary)."""
-    for name in ctx._suppressed:
+    for name in (ctx._suppressed if names is None else names):
         if known.trigger(name, text, res):
             ctx.count('known_trigger:' + name)
             return True
